@@ -22,8 +22,14 @@ void harness (void)
     for (i = 0; i < H * SW + 2; i++) { VP_SYM_IDX (d0, i); d[i] = d0[i]; }
     for (i = 0; i < SRCW * 2; i++) VP_SYM_IDX (s, i);
     pixman_image_t *dst = vp_img (FMT, W, H, d + 1, SW);
+#ifdef SAMEFMT
+    /* source of the destination's own format, size and stride (plain-copy fast paths, whole-width requests): its row padding is symbolic too */
+    uint32_t s2[H * SW]; for (i = 0; i < H * SW; i++) VP_SYM_IDX (s2, i);
+    pixman_image_t *src = vp_img (FMT, W, H, s2, SW);
+#else
     pixman_image_t *src = vp_img (PIXMAN_a8r8g8b8, SRCW, 2, s, SRCW);
     pixman_image_set_repeat (src, PIXMAN_REPEAT_NORMAL);
+#endif
     int x1 = DX, y1 = DY, x2 = DX + RW, y2 = DY + RH;
     if (x1 < 0) x1 = 0; if (y1 < 0) y1 = 0; if (x2 > W) x2 = W; if (y2 > H) y2 = H;
 #ifdef HAVE_DCLIP
@@ -31,7 +37,11 @@ void harness (void)
       pixman_bool_t okc = pixman_image_set_clip_region32 (dst, &c); VP_ASSUME (okc);
       if (x1 < CX1) x1 = CX1; if (y1 < CY1) y1 = CY1; if (x2 > CX2) x2 = CX2; if (y2 > CY2) y2 = CY2; }
 #endif
+#ifdef SAMEFMT
+    pixman_image_composite32 (OP, src, NULL, dst, SRCX, SRCY, 0, 0, DX, DY, RW, RH);
+#else
     pixman_image_composite32 (OP, src, NULL, dst, 1, 0, 0, 0, DX, DY, RW, RH);
+#endif
     VP_ASSERT (d[0] == d0[0] && d[H * SW + 1] == d0[H * SW + 1], "guard words before/after the pixel storage unchanged");
     {
 	int r, bit; VP_SYM (r); VP_SYM (bit);
